@@ -11,6 +11,27 @@ CLAIMED = {
          "Generated chains of every log kind x target are pushed through the API JSON form and through an emulated store row and must come back equal and re-hash to the stored hash; exploration of a generated input space with shrinking, not a proof.",
          "Trusted: the jsonb/timestamptz emulation (generic decode with exact numbers, instant truncated to microseconds); log dates are ledger.Now()-shaped (UTC, microseconds); no NUL in strings.",
          "DESIGN.md 5/C13"),
+ "C01": ("NUMGEN", "exploration",
+         "property-based testing (rapid): generated programs x bindings x balance tables; invariant over the output (running-balance floor) plus reference-model implication for uncovered sends",
+         "Every accepted run's postings are replayed in order over the drawn balances and no non-world debit may pass -(granted overdraft); uncovered sends must be refused as insufficient funds. Generated programs with shrinking; not exhaustive.",
+         "Trusted: the harness's AST (grants are read from it), the reference interpreter for the 'cannot cover' direction only.",
+         "DESIGN.md 5/C01"),
+ "C03": ("NUMGEN", "exploration",
+         "property-based testing: validity predicates on per-send posting groups (sign, conservation/partition into destination leaves with spec-level allocation, caps, ordered-source rule)",
+         "Per send, the emitted postings must partition exactly among the destination leaves with the floored-share-plus-leftover / min(max, rest) amounts of the stated total, nothing extra, caps respected, ordered sources honoured. Validity predicates, independent of the reference run's postings.",
+         "Trusted: leaf amounts are computed by the harness from its own AST with the allocation rule as stated in the property; for [A *] the total comes from the reference interpreter.",
+         "DESIGN.md 5/C03"),
+ "C08": ("NUMGEN", "exploration",
+         "differential property-based testing against a reference interpreter written from the source-level meaning; must-reject variants; metamorphic cache/concurrency runs",
+         "Differential: real compile+VM vs harness reference interpreter on normalised postings, metadata, final balances and error class for generated programs over the whole grammar; 19 must-reject mutations; compilation cache under sizes/eviction/concurrency.",
+         "Trusted: the reference interpreter (a disagreement is triaged before it is reported; one known finding listed).",
+         "DESIGN.md 5/C08"),
+ "C12": ("NUMGEN", "exploration",
+         "property-based robustness testing (loose AST generator, token/byte mutation, splicing) with panic / watchdog / A-B-A oracle; native go fuzzing in the thorough tier",
+         "No panic in any stage nor in rendering errors, termination within a watchdog, and A-B-A repeatability through the shared compilation cache, over loosened programs, hostile bindings and mutated text; plus coverage-guided native fuzzing (thorough).",
+         "Trusted: watchdog expiry is a hang only when it repeats on a solitary re-run.",
+         "DESIGN.md 5/C12"),
+
  "C02": ("ENGINE-SIM", "exploration",
          "stateful property-based testing with a harness-owned scheduler (rapid + testing/synctest); invariant over the persisted history (independent fold, per-debit floor)",
          "Generated sets of concurrent creates/reverts run on the real Commander/locker/batcher under generated interleavings; the persisted log is folded independently and every debit must respect the balance at its log position. Exploration: many histories x schedules, no exhaustiveness.",
@@ -92,6 +113,7 @@ def main():
     open("MANIFEST.json", "a").write("\n")
 
 ENGINES = [
+ {"name": "NUMGEN", "path": "harness/numgen", "serves_properties": ["C01", "C03", "C08", "C12"], "kind_free_text": "Numscript AST, typed and loose generators, printer, reference interpreter"},
  {"name": "ENGINE-SIM", "path": "harness/enginesim", "serves_properties": ["C02", "C05", "C06", "C07", "C10", "C11", "C14", "C16"], "kind_free_text": "deterministic schedule/crash/fault simulation of command.Commander in a synctest bubble + history oracles"},
  {"name": "LOGRT", "path": "harness/checks/c13_test.go", "serves_properties": ["C13"], "kind_free_text": "rapid generators + round-trip / metamorphic oracles"},
 ]
